@@ -18,6 +18,10 @@ def c01(A, ctx, tier):
     control.r_lbfgs(A, ctx, scope)
     formulas.r_cert_scale(A, ctx, dict(exempt=EX01, floor=3))
     misc.r_accreset(A, ctx, dict(floor=2))
+    warm.r_path(A, ctx, dict(floor=8))
+    kernels.r_fixpoint(A, ctx, dict(floor=5))
+    storage.r_solverstate(A, ctx, dict(floor=25))
+    descent.r_candidate(A, ctx, dict(floor=3))
     for k, v in EX01.items():
         ctx.note(f"out of scope {k}: {v}")
     cox.r_istep_multitask(A, ctx, {})
@@ -35,6 +39,8 @@ def c03(A, ctx, tier):
     descent.r_step(A, ctx, dict(floor=12))
     descent.r_ls(A, ctx, dict(floor=12))
     reweight.r_reweight(A, ctx, dict(floor=9))
+    warm.r_path(A, ctx, dict(floor=8))
+    descent.r_candidate(A, ctx, dict(floor=3))
     ctx.note("backtracking exhaustion (`else: pass  # TODO` after 20 halvings) keeps the last "
              "trial step: informational, no rule can say what the right fallback is")
     ctx.assume("prox operators are exact and L_k bounds the curvature (C07/C09)")
@@ -70,6 +76,7 @@ def c05(A, ctx, tier):
     misc.r_alias(A, ctx, dict(floor=10))
     pairing.r_pair_eq(A, ctx, dict(floor=30))
     misc.r_wssize(A, ctx, dict(floor=4))
+    control.r_cert(A, ctx, dict(exempt=EX01, floor=6), rule="R-CERT-TOL", clauses=())
     ctx.assume("a consistent (w_init, Xw_init) pair is the caller's contract")
     return dict(explanation="warm starts and paths: optional-argument idiom, pairing of "
                 "every coefficient store with its model-fit delta, path discipline "
@@ -99,6 +106,9 @@ def c19(A, ctx, tier):
     misc.r_zerocol(A, ctx, dict(floor=10))
     misc.r_abseps(A, ctx, dict(floor=300))
     kernels.r_zeroblock(A, ctx, {})
+    kernels.r_fixpoint(A, ctx, dict(floor=5), rule="R-FIXPOINT-ZEROGROUP")
+    pairing.r_pair_eq(A, ctx, dict(only="zero task", floor=2), rule="R-PAIR-ZEROTASK")
+    blockpen.r_proxfoc_block(A, ctx, dict(floor=12), rule="R-PROX-ZEROWEIGHT-BLOCK", parts=("nonneg",))
     ctx.assume("finiteness under overflow and rank-deficient non-zero designs are not decided")
     return dict(explanation="degenerate data: every division by a data-derived "
                 "magnitude in solver code is dominated by a non-zero fact; every loop is "
@@ -112,6 +122,7 @@ def c11(A, ctx, tier):
     misc.r_grporder(A, ctx, dict(floor=6))
     plumb.r_rowfilter(A, ctx, dict(floor=10))
     misc.r_grppair(A, ctx, dict(floor=5))
+    plumb.r_fitsets(A, ctx, dict(floor=3))
     ctx.assume("stationarity of the fitted coefficients is C01's business; the "
                "docstring-formula <-> class correspondence is not decided")
     return dict(explanation="constructor-argument plumbing of the 12 estimators: every "
@@ -127,6 +138,7 @@ def c12(A, ctx, tier):
     plumb.r_row0(A, ctx, {})
     plumb.r_classes(A, ctx, {})
     plumb.r_expstable(A, ctx, {})
+    plumb.r_fitsets(A, ctx, dict(floor=3))
     ctx.assume("probability normalisation/monotonicity (sklearn mix-ins, softmax) are "
                "runtime behaviour and not decided")
     return dict(explanation="one-vs-rest assembly gathers every fitted attribute from the "
@@ -136,6 +148,8 @@ def c12(A, ctx, tier):
 
 def c18(A, ctx, tier):
     plumb.r_pure(A, ctx, dict(floor=25))
+    misc.r_lazyset(A, ctx, dict(floor=10))
+    misc.r_accessor_pure(A, ctx, dict(floor=190))
     plumb.r_state(A, ctx, dict(floor=8))
     warm.r_cache(A, ctx, {})
     storage.r_solverstate(A, ctx, dict(floor=25))
@@ -203,6 +217,7 @@ def c16(A, ctx, tier):
         return out
     degenerate.r_div(A, ctx, dict(floor=3, py_level_strict=True), where=where, rule="R-DIV-ALPHAMAX")
     control.r_cert(A, ctx, dict(exempt=EX01, floor=6), rule="R-CERT-INTERCEPT", clauses=("intercept",))
+    control.r_retstop(A, ctx, dict(exempt=EX01, floor=6))
     penalgebra.r_alphamax(A, ctx, dict(floor=4))
     extents.r_idx(A, ctx, dict(floor=3, floor_typed=3), rule="R-IDX-ALPHAMAX",
                   select=lambda f: f.name == "alpha_max" or f.name.startswith("_alpha_max"))
@@ -228,6 +243,8 @@ def c06(A, ctx, tier):
     kernels.r_accessor_eq(A, ctx, dict(floor=40))
     blockpen.r_prox_datafit(A, ctx, dict(floor=15))
     cox.r_istep_multitask(A, ctx, {})
+    misc.r_lazyset(A, ctx, dict(floor=10))
+    misc.r_accessor_pure(A, ctx, dict(floor=190))
     ctx.assume("Cox: the outer composition (gradient == gradient_sparse == X.T @ raw_grad) is decided "
                "for all shapes with the risk-set recursions as opaque operators; the recursions "
                "themselves are decided on six fixed tie / censoring patterns of 3-5 observations "
@@ -285,6 +302,12 @@ def c08(A, ctx, tier):
     blockpen.r_deriv_pen_block(A, ctx, dict(floor=180))
     kernels.r_fixpoint(A, ctx, dict(floor=5))
     blockpen.r_ispen(A, ctx, dict(floor=20))
+    # penalties without subdiff_distance are scored by the fixed-point residual of their prox alone:
+    # "zero exactly at stationary points" is then the first-order condition of that prox
+    blockpen.r_proxfoc_block(A, ctx, dict(floor=4, select=lambda c: c.find_method("subdiff_distance") is None
+                                          or c.find_method("subdiff_distance").cls.name == "BasePenalty"),
+                             rule="R-PROX-SCORE", parts=("foc", "zero"))
+    extents.r_uninit(A, ctx, dict(floor=6))
     ctx.assume("that the regular subdifferential is the right notion at non-convex kinks is a "
                "mathematical fact, not decided")
     return dict(explanation="for every separable penalty and every order region of w_j the "
@@ -336,6 +359,7 @@ def c15(A, ctx, tier):
     descent.r_step(A, ctx, dict(floor=12), rule="R-STEP-KIND")
     misc.r_grporder(A, ctx, dict(floor=6))
     misc.r_abseps(A, ctx, dict(floor=300))
+    kernels.r_fixpoint(A, ctx, dict(floor=5), rule="R-FIXPOINT-ORDER")
     ctx.assume("equivariance of converged solutions and scaling laws are numerical; decided is "
                "the necessary condition that no subscript mixes a working-set position, a "
                "feature, a group, a task or a sample index, and that group specifications keep "
@@ -359,6 +383,7 @@ def c20(A, ctx, tier):
     pairing.r_pair_eq(A, ctx, dict(floor=30), rule="R-PAIR-BOUNDS")
     extents.r_fullarg(A, ctx, dict(floor=40))
     misc.r_wscut(A, ctx, dict(floor=3))
+    extents.r_uninit(A, ctx, dict(floor=6))
     misc.r_initialize(A, ctx, dict(floor=6))
     ctx.assume("value-dependent indices (entries of user-supplied grp_indices / CSC indices being "
                "in range) are an input contract and not decided")
